@@ -1215,8 +1215,32 @@ func structArrEv(idx []int32, elts []arrStruct, probes []int32) Ev {
 
 // ============================ C17: size ============================================
 
+// filterSpellings: the ways a caller can ask for filter mode (no stored prefixes): no Opt
+// argument, an empty Opt, and every mix of nil and explicit false for the three prefix options
+// (DedupValue is irrelevant without values).  Which one a key set gets is a function of the
+// key set, so that a replay makes the same choice.
+var filterSpellings = [][4]int{{2, 2, 2, 2}, {2, 2, 2, 2}, {1, 0, 0, 0}, {2, 2, 2, 0}, {0, 0, 0, 0}, {2, 0, 2, 2}, {2, 2, 0, 2}, {2, 0, 0, 2}, {0, 2, 2, 0}, {2, 0, 0, 0}}
+
+func filterSpelling(keys []string) (o4 [4]int, noOpt bool) {
+	h := len(keys) * 31
+	if len(keys) > 0 {
+		for _, k := range []string{keys[0], keys[len(keys)-1], keys[len(keys)/2]} {
+			for i := 0; i < len(k) && i < 64; i++ {
+				h = h*131 + int(k[i])
+			}
+			h = h*7 + len(k)
+		}
+	}
+	if h < 0 {
+		h = -h
+	}
+	i := h % len(filterSpellings)
+	return filterSpellings[i], i == 0
+}
+
 func sizeOf(keys []string) (int, *Decoded) {
-	c := &TrieCase{Keys: keys, Enc: "none", Opt4: [4]int{2, 2, 2, 2}, NoOpt: true}
+	o4, noOpt := filterSpelling(keys)
+	c := &TrieCase{Keys: keys, Enc: "none", Opt4: o4, NoOpt: noOpt}
 	st, _, _ := c.Build()
 	if st == nil {
 		return -1, nil
